@@ -283,6 +283,18 @@ func c10run(c *fw.Ctx, idx int) {
 		c10probeUnit("range-left-early", `{{range bigmap}}x{{return 1}}{{end}}|{{range k, v := bigmap}}y{{return 2}}{{end}}|{{range xs}}z{{return 3}}{{end}}`, prog.Value{}, false),
 		c10probeUnit("range-over-empty", `[{{range k, v := emptymap}}{{k}}={{v}}{{else}}nothing{{end}}][{{range nilmap}}{{.}}{{else}}nil{{end}}][{{range i, v := emptysl}}{{i}}{{v}}{{else}}none{{end}}]`, prog.Value{}, false),
 	)
+	// one layout with a positional yield argument, extended by templates whose overriding blocks name their first
+	// parameter differently: what the argument binds to is decided per execution
+	posp := func(main string) *prog.Program {
+		return &prog.Program{Main: main, Vars: map[string]prog.Value{}, Files: []*prog.File{
+			{Path: "/poslayout.jet", Body: []prog.Node{&prog.RawFail{Src: `L<{{block item(title="none")}}[{{title}}]{{end}}|{{yield item("x")}}>`}}},
+			{Path: "/posa.jet", Body: []prog.Node{&prog.RawFail{Src: `{{extends "/poslayout.jet"}}{{block item(title="A-none")}}A:{{title}}{{end}}`}}},
+			{Path: "/posb.jet", Body: []prog.Node{&prog.RawFail{Src: `{{extends "/poslayout.jet"}}{{block item(label="B-none", title="B-t")}}B:{{label}}/{{title}}{{end}}`}}},
+		}}
+	}
+	posA := &c10unit{name: "positional-yield-argument-child-a", p: posp("/posa.jet")}
+	units = append(units, posA, &c10unit{name: "positional-yield-argument-child-b", p: posp("/posb.jet"), share: posA},
+		&c10unit{name: "positional-yield-argument-layout", p: posp("/poslayout.jet"), share: posA})
 	var incFirst *c10unit
 	for _, v := range [][2]string{{"a.jet", "/parts/"}, {"b.jet", "/alt/"}, {"missing.jet", "/parts/"}, {"b.jet", "/parts/"}} {
 		u := &c10unit{name: "include-computed-" + strings.TrimSuffix(v[0], ".jet") + "-" + strings.Trim(v[1], "/"), p: incp, share: incFirst}
@@ -466,7 +478,7 @@ func init() {
 	fw.Register(&fw.Property{
 		ID:        "C10",
 		Technique: "history monitor with fresh-state reference: every Execute of a history on one locked OS thread (pooled Runtime reused, GC off) must equal the same call executed on a freshly built and parsed Set right after the pools were drained; parsed templates hashed before/after",
-		Rule: "each case is one history of 8-32 Execute calls over a pool of 4-7 generated programs, each also through up to two other entry points on the same Set (failures anywhere: in yields with content, ranges, if-let, includes, try) plus 20 fixed templates: executions failing deep inside a block yielded with content below if-let and range (ending in an error, a function error, or a string panic that escapes Execute), try bodies, and probes exposing '.', 'yield content', isset() of names bound earlier, try/catch and block defaults, and a field promoted through an embedded pointer (nil in one unit, set in another) of a struct type minted per history, one parsed template with computed include names executed with four different variable bindings, an include of a template that does not parse, ranges left early by a return followed by ranges over empty and nil collections; " +
+		Rule: "each case is one history of 8-32 Execute calls over a pool of 4-7 generated programs, each also through up to two other entry points on the same Set (failures anywhere: in yields with content, ranges, if-let, includes, try) plus 23 fixed templates: executions failing deep inside a block yielded with content below if-let and range (ending in an error, a function error, or a string panic that escapes Execute), try bodies, and probes exposing '.', 'yield content', isset() of names bound earlier, try/catch and block defaults, and a field promoted through an embedded pointer (nil in one unit, set in another) of a struct type minted per history, one parsed template with computed include names executed with four different variable bindings, an include of a template that does not parse, ranges left early by a return followed by ranges over empty and nil collections; " +
 			"a fifth of the calls write into a writer that fails after 0-39 bytes; oracle: (bytes written, error text) of every call equals the fresh-state reference of the same (template, variables, writer) triple, obtained on a Set parsed from scratch after replacing the Runtime and ranger pools (hook VerifDrainPools; fallback two GC cycles); template trees hashed by reflection before and after; " +
 			"non-trivial = a failed execution immediately followed by another execution on the reused Runtime; distinct by (failing unit, writer failed, following unit); evidence records how often consecutive executions saw the same *Runtime",
 		Assumptions: []string{"generated programs are deterministic (single-entry maps, fresh channels and VarMaps per execution)", "not run under the race detector (it drops pool items at random)"},
